@@ -56,6 +56,7 @@ class QueryPlanner:
         # map for lower names of predictors
 
         self.predictor_info = {}
+        self.cte_names = set()
         if isinstance(predictor_metadata, list):
             # convert to dict
             for predictor in predictor_metadata:
@@ -215,6 +216,11 @@ class QueryPlanner:
         # projects = set()
         integrations = set()
 
+        # names of common table expressions are not tables of any database (also inside nested selects of the same statement)
+        if isinstance(query, Select) and query.cte:
+            self.cte_names = self.cte_names | {cte.name.parts[-1] for cte in query.cte if isinstance(cte.name.parts[-1], str)}
+        known_ctes = self.cte_names
+
         def find_objects(node, is_table, **kwargs):
             if isinstance(node, Function):
                 if node.namespace is not None or node.op.lower() in ('llm',):
@@ -222,6 +228,8 @@ class QueryPlanner:
 
             if is_table:
                 if isinstance(node, ast.Identifier):
+                    if len(node.parts) == 1 and node.parts[0] in known_ctes:
+                        return
                     integration, _ = self.resolve_database_table(node)
 
                     if self.is_predictor(node):
@@ -797,6 +805,7 @@ class QueryPlanner:
     # method for compatibility
     def from_query(self, query=None):
         self.plan = QueryPlan()
+        self.cte_names = set()
 
         if query is None:
             query = self.query
